@@ -14,10 +14,11 @@ reference reader of props/C07.py) as the normal form of the accepted calls alone
 """
 import random
 from props import calls as K
+from props import reuse as RU
 
 PID = 'C05'
 HARNESS = 'h_c05'
-HARNESS_EXTRA = ('rec.h',)
+HARNESS_EXTRA = ('rec.h', 'reuse.h')
 MODEL_MODULE = 'V.C05.Model'
 SIZES = [4096, 16, 32]
 VARIANTS = {('N%d' % n): ({} if n == 4096 else {'POTASSCO_VERIF_BUF_SIZE': n}) for n in SIZES}
@@ -41,9 +42,30 @@ def mk(n, ext, f, calls, cont=False):
     return [n, (2 if cont else 0) + (1 if ext else 0), f] + K.enc_all(calls)
 
 
+PRIMER_STAGES = ['complete program', 'program abandoned inside the rule section (false atom marked as used)',
+                 'program abandoned behind its symbol table', 'program abandoned behind its compute statement and a refused output call']
+
+
+def primed(c):
+    """harness/h_c05.cpp: every other case that starts with initProgram is played on a SmodelsOutput OBJECT that has written another
+    program before (writer reuse; same hash as harness/reuse.h: bit 17 = primed, bit 18 = that program was incremental, bits 19-20 = how
+    far it got); its text is thrown away. Invisible for a correct writer: neither the model nor the oracle depends on it.
+    Returns None or (incremental, stage)."""
+    if len(c) > 3 and c[3] == 1 and RU.primed(c):
+        v = (RU.fnv(c) >> 18) & 7
+        return bool(v & 1), (v >> 1) & 3
+    return None
+
+
 def describe(c):
     n, ext, f, calls = decode(c)
-    return 'N=%d ext=%d false=%d%s calls: %s' % (n, ext, f, ' [caller catches refusals and continues]' if is_cont(c) else '', K.pretty(calls))
+    pr = primed(c)
+    w = ''
+    if pr is not None:
+        inc, stage = pr
+        w = ' writer=reused(same object wrote before: %s %s; that text is discarded)' % (
+            ('an incremental' if ext else 'initProgram(true) refused and caught, then a non-incremental') if inc else 'a non-incremental', PRIMER_STAGES[stage])
+    return 'N=%d ext=%d false=%d%s%s calls: %s' % (n, ext, f, ' [caller catches refusals and continues]' if is_cont(c) else '', w, K.pretty(calls))
 
 
 # ---------------------------------------------------------------------------------------------------
@@ -231,6 +253,14 @@ def reference_reread(text, ext):
         return None
 
 
+def probe_shape(have, want):
+    """the KNOWN finding probe-leading-9 and nothing else: the program is non-incremental, its first written line is an external (classify:
+    'in-probe'), and the ONLY difference is that it is read back with initProgram(true).  Any other change of the incremental flag - e.g. a
+    step marker '90 0' in a non-incremental program (seeded change C05-r9: the flag of an EARLIER program of the same writer) - is an ordinary failure
+    (before round 9 every flag difference carried the known finding's signature and was filed under it)."""
+    return (len(have) == len(want) and have[1:] == want[1:] and want[0][0] == 1 and have[0][0] == 1 and not want[0][1] and bool(have[0][1]))
+
+
 def oracle_cont(ext, f, calls, text, ok, flags, got, status):
     """caller catches refusals and continues: judge every call against the calls accepted before it, then the re-read text
     against the accepted calls alone (a refused call must leave no trace in the text)"""
@@ -270,7 +300,7 @@ def oracle_cont(ext, f, calls, text, ok, flags, got, status):
     if status != 1:
         sig.append('written-text-rejected-by-reader')
     elif have != want:
-        if have[1:] == want[1:] and have[0][0] == 1 and want[0][0] == 1:
+        if kind == 'in-probe' and probe_shape(have, want):
             sig.append('init-incremental-flag-differs')
         elif refusals and have == canon(norm(marked, f)):
             sig.append('refused-call-left-trace:false-atom-marked-by-refused-sum-rule')
@@ -309,7 +339,7 @@ def oracle(c, obs):
         elif status != 1:
             sig.append('written-text-rejected-by-reader')
         elif have != want:
-            if have[1:] == want[1:] and have[0][0] == 1 and want[0][0] == 1:
+            if kind == 'in-probe' and probe_shape(have, want):
                 sig.append('init-incremental-flag-differs')
             else:
                 sig.append('roundtrip-differs')
@@ -538,6 +568,17 @@ FIXED_CONT = [
     ((False, 0), [(1, True), (2,), (4, 0, [1], [2]), (3,)], 'refused-init'),
 ]
 
+# two programs through ONE writer in one case (judged through the model; the oracle does not judge cases with a second initProgram - the
+# harness-side primer, primed(), gives the oracle-level verdict on a second program)
+FIXED_TWO = [
+    # (ext, false atom), history, continue mode, kind
+    ((True, 0), [(1, True), (2,), (4, 0, [1], [2]), (3,), (2,), (9, 2, 1), (3,), (1, False), (2,), (4, 0, [1], [2]), (8, b'a', [1]), (3,)], False, 'incremental-then-ordinary'),
+    ((True, 7), [(1, True), (2,), (4, 0, [], [1]), (8, b'a', [1]), (10, [1, -2]), (1, False), (2,), (4, 0, [1], [2]), (3,)], False, 'abandoned-behind-compute-then-ordinary'),
+    ((True, 0), [(1, False), (2,), (4, 0, [1], []), (3,), (1, True), (2,), (4, 0, [2], []), (3,), (2,), (3,)], False, 'ordinary-then-incremental'),
+    ((False, 7), [(1, True), (1, False), (2,), (5, 0, [], 1, [(1, 1)]), (8, b'p', [1, 2]), (1, False), (2,), (4, 0, [1], [2]), (10, []), (3,)], True, 'refused-init-then-two-programs'),
+    ((True, 7), [(1, True), (2,), (4, 0, [], [1]), (10, [1]), (8, b'late', [1]), (1, False), (4, 0, [1], [2]), (2,), (4, 0, [1], [2]), (3,)], True, 'rule-between-init-and-begin-meets-stale-section'),
+]
+
 
 def gen(seed, tier):
     rnd = random.Random(seed * 1000003 + 5)
@@ -549,13 +590,31 @@ def gen(seed, tier):
     for (ext, f), p, kind in FIXED_CONT:
         for n in SIZES:
             out.append((mk(n, ext, f, p, True), {'kind': 'fixed-continue-' + kind}))
+    for (ext, f), p, cont, kind in FIXED_TWO:
+        for n in SIZES:
+            out.append((mk(n, ext, f, p, cont), {'kind': 'fixed-two-programs-' + kind}))
     while len(out) < total:
         ext = rnd.random() < 0.5
         f = rnd.choice([0, 0, 1, 7, INT_MAX])
         p = r_prog(rnd, ext, f)
         n = rnd.choice(SIZES)
         r = rnd.random()
-        if r < 0.40:
+        if r < 0.05:
+            # two programs through one writer object in ONE case: a first program (complete, or abandoned anywhere - inside the rule section,
+            # behind the symbols, behind the compute statement -, in continue mode with refused calls), then initProgram again and a second program
+            cont = rnd.random() < 0.5
+            ext = ext or rnd.random() < 0.5
+            p1 = r_prog(rnd, ext, f)
+            if cont and rnd.random() < 0.6:
+                p1, _ = inject(rnd, p1, ext, f, rnd.choice(['outcond-first', 'tail', None]))
+            if rnd.random() < 0.5 and len(p1) > 3:
+                p1 = p1[:rnd.randint(2, len(p1) - 1)]
+            if cont and not ext and rnd.random() < 0.3:
+                p1 = [(1, True)] + p1[1:]           # refused initProgram(true), caught
+            p2 = r_prog(rnd, ext, f)
+            out.append((mk(n, ext, f, p1 + p2, cont), {'kind': 'two-programs-one-writer'}))
+            continue
+        if r < 0.43:
             # the caller catches refusals and continues with the same writer
             r2 = rnd.random()
             if r2 < 0.08:
@@ -598,6 +657,8 @@ RULE = ('cases = (BUF_SIZE variant of the reader in {4096,16,32}, clasp extensio
         'a fragment program plus 1..4 refused calls at random positions of a step (general output directive - also as first output inside the rule section, followed by minimize / rules / externals -, '
         'project / heuristic / edge / theory, negative bound, weight body with choice / disjunctive head, empty head, external without extensions, rules behind symbols, output / second compute behind the compute statement), '
         'every call judged against the calls accepted before it and the re-read text against the accepted calls alone; '
+        'WRITER REUSE: every other case that starts with initProgram is played on a SmodelsOutput OBJECT that has written another program before (hash of the case: incremental or not - refused and caught without the extensions -; complete, or abandoned in the rule section with the false atom used / behind the symbol table / behind the compute statement and a refused call), that text discarded; '
+        '5% of the random cases hold TWO programs for one writer (first one complete, cut off anywhere, with refused calls; judged through the model); '
         'non-trivial = the reader delivered more than init/begin/end or the writer refused; distinct = distinct case tuples')
 TRUSTED_BASE = ['coq/C09/Spec.v abstract stream; coq/C07 reader model (tied to the code by C07\'s own correspondence)',
                 'std::ostream operator<< for unsigned / int modelled by Dec.print_nat',
@@ -610,7 +671,9 @@ LEVEL_TEXT = ('Coq model of SmodelsOutput composed with the C07 reader model; ma
               'externals 91/92 with the value coding, any number of incremental steps, extensions on or off, any false atom, bodies of any length); the writer refuses exactly the '
               'documented cases (c05_refuses); normalised bodies are permutations (c05_perm); a caller that catches a refusal and continues: a refused call writes nothing and leaves a state no later call can tell from the '
               'state before (c05_refused_state, c05_refused_no_trace, c05_obs_eq_step), so for EVERY history the text is the text of the accepted calls alone (c05_continue_accepted) and, if these form a program of the fragment, '
-              'is read back as their normal form (c05_continue_roundtrip). Proof route: the written text is the rendering of a laid-out program of C07/Spec.v that is '
+              'is read back as their normal form (c05_continue_roundtrip); one writer object used for several programs: initProgram assigns inc_, beginStep assigns sec_ / fHead_, so initProgram; beginStep; ANY calls on a writer in ANY state '
+              'get the statuses and append exactly the text of a new writer with the same extensions flag / false atom (c05_init_any_state, c05_begin_forgets, c05_second_program_like_fresh), a program of the fragment is read back as its normal form whatever the writer did before '
+              '(c05_second_program_roundtrip, c05_history_then_program). Proof route: the written text is the rendering of a laid-out program of C07/Spec.v that is '
               'layout_ok, in_range and denotes sm_norm p, then c07_complete. The model is tied to the code by differential correspondence (bytes written + reader calls) and the Coq '
               'fragment/normal-form definitions are cross-checked against the independent python normaliser that judges the implementation (c05_spec_matches_oracle).')
 LEVEL_NOTE = ('c05_roundtrip is full over in_fragment (boolean, coq/C05/Spec.v). Excluded from in_fragment, as from the property\'s quantifier: names containing LF/CR/NUL, negative rule-body weights, '
